@@ -39,7 +39,7 @@ def cases(draw, maxdirs):
     for e in extra:
         if e[1] == "d":
             e[2] = e[2] % nd
-    return {"fmt": [draw(st.sampled_from(["sdmf", "mdmf"])) for _ in range(nd)], "links": links + extra, "deepcheck": draw(st.integers(0, 2)) == 0,
+    return {"hsalt": draw(st.integers(0, 15)), "fmt": [draw(st.sampled_from(["sdmf", "mdmf"])) for _ in range(nd)], "links": links + extra, "deepcheck": draw(st.integers(0, 2)) == 0,
             "overlap": draw(st.sampled_from([None, ["stats", "stats"], ["stats", "manifest"], ["manifest", "stats", "manifest"]])), "osched": draw(st.lists(st.integers(0, 9), max_size=40)),
             "sched": draw(st.lists(st.integers(0, 5), max_size=20))}
 
